@@ -47,7 +47,9 @@ struct Case {
     hang_ms: u64,
     /// `Action::Test` instead of `Action::Bench` (one round of one call)
     test: bool,
-    /// per round (cycling): one character per thread, '1' = the thread allocates in its calls
+    /// per round (cycling): one character per thread - what it does in each call of its timed
+    /// section: '1' allocate (leak), 'b' allocate and free, 'f' free a block allocated before the
+    /// run, 's' shrink a vector grown before the run, '0' nothing
     mask: Vec<Vec<u8>>,
 }
 
@@ -186,39 +188,115 @@ impl Ctx {
         (t, idx)
     }
 
+    /// What thread t does in the calls of round r.
+    fn behaviour(&self, t: u64, r: u64) -> u8 {
+        match self.case.mask.len() {
+            0 => b'1',
+            l => self.case.mask[(r as usize) % l].get(t as usize).copied().unwrap_or(b'0'),
+        }
+    }
+
+    /// Untimed noise (must not show up in any sample).  A thread whose timed
+    /// section only frees or shrinks stays free of allocations outside it too,
+    /// so that nothing but `clear` resets its tally between two rounds.
+    fn noise(&self, t: u64, r: u64, bytes: usize) {
+        if !matches!(self.behaviour(t, r), b'f' | b's') {
+            let b = vec![1u8; bytes];
+            std::hint::black_box(&b);
+        }
+    }
+
     fn gen(&self) {
-        self.point(EV_GEN, 'g', &GEN_CNT);
-        // untimed noise: must not show up in any sample
-        let b = vec![1u8; 7777];
-        std::hint::black_box(&b);
+        let (t, idx) = self.point(EV_GEN, 'g', &GEN_CNT);
+        self.noise(t, idx / self.case.n as u64, 7777);
     }
 
     fn call(&self) {
         let (t, idx) = self.point(EV_CALL, 'c', &CALL_CNT);
         let n = self.case.n as u64;
         let r = idx / n;
-        let allocates = match self.case.mask.len() {
-            0 => true,
-            l => self.case.mask[(r as usize) % l].get(t as usize) == Some(&b'1'),
-        };
-        if allocates {
-            let v = Vec::<u8>::with_capacity(asize(t, r, idx % n));
-            std::hint::black_box(&v);
-            std::mem::forget(v);
+        match self.behaviour(t, r) {
+            b'1' => {
+                let v = Vec::<u8>::with_capacity(asize(t, r, idx % n));
+                std::hint::black_box(&v);
+                std::mem::forget(v);
+            }
+            b'b' => {
+                let v = Vec::<u8>::with_capacity(asize(t, r, idx % n));
+                std::hint::black_box(&v);
+                drop(v);
+            }
+            b'f' => {
+                // free-only: a block the harness allocated on another thread before the run
+                let b = FREE_POOL.lock().unwrap_or_else(|e| e.into_inner())[t as usize].pop();
+                let b = b.expect("free pool exhausted");
+                std::hint::black_box(&b);
+                drop(b);
+            }
+            b's' => {
+                // shrink-only: a vector grown before the run; realloc to half its capacity
+                let v = SHRINK_POOL.lock().unwrap_or_else(|e| e.into_inner())[t as usize].pop();
+                let mut v = v.expect("shrink pool exhausted");
+                v.shrink_to_fit();
+                std::hint::black_box(&v);
+                std::mem::forget(v);
+            }
+            _ => {}
         }
     }
 
     fn drop_out(&self) {
-        self.point(EV_DROP_OUT, 'o', &DOUT_CNT);
-        let b = vec![1u8; 3333];
-        std::hint::black_box(&b);
+        let (t, idx) = self.point(EV_DROP_OUT, 'o', &DOUT_CNT);
+        self.noise(t, idx / self.case.n as u64, 3333);
     }
 
     fn drop_in(&self) {
-        self.point(EV_DROP_IN, 'i', &DIN_CNT);
-        let b = vec![1u8; 3333];
-        std::hint::black_box(&b);
+        let (t, idx) = self.point(EV_DROP_IN, 'i', &DIN_CNT);
+        self.noise(t, idx / self.case.n as u64, 3333);
     }
+}
+
+/// Bytes of the blocks freed by a free-only thread / shrunk off by a shrink-only thread
+/// (same formulas in ocaml/round.ml).
+fn fsize(t: u64) -> usize {
+    (32 * (t + 1) + 5) as usize
+}
+fn ssize(t: u64) -> usize {
+    (16 * (t + 1) + 3) as usize
+}
+
+static FREE_POOL: std::sync::Mutex<Vec<Vec<Box<[u8]>>>> = std::sync::Mutex::new(Vec::new());
+static SHRINK_POOL: std::sync::Mutex<Vec<Vec<Vec<u8>>>> = std::sync::Mutex::new(Vec::new());
+
+/// Pre-fills the per-thread pools on the harness thread (not a benchmark thread).
+fn fill_pools(case: &Case) {
+    let rounds = (case.sample_count as usize + case.threads - 1) / case.threads.max(1);
+    let per_thread = (rounds + 1) * case.n as usize + 2;
+    let uses = |c: u8| case.mask.iter().any(|m| m.contains(&c));
+    let mut fp = Vec::new();
+    let mut sp = Vec::new();
+    for t in 0..case.threads as u64 {
+        let mut f: Vec<Box<[u8]>> = Vec::new();
+        let mut s: Vec<Vec<u8>> = Vec::new();
+        if uses(b'f') {
+            f.reserve(per_thread);
+            for _ in 0..per_thread {
+                f.push(vec![7u8; fsize(t)].into_boxed_slice());
+            }
+        }
+        if uses(b's') {
+            s.reserve(per_thread);
+            for _ in 0..per_thread {
+                let mut v = Vec::<u8>::with_capacity(2 * ssize(t));
+                v.resize(ssize(t), 3);
+                s.push(v);
+            }
+        }
+        fp.push(f);
+        sp.push(s);
+    }
+    *FREE_POOL.lock().unwrap_or_else(|e| e.into_inner()) = fp;
+    *SHRINK_POOL.lock().unwrap_or_else(|e| e.into_inner()) = sp;
 }
 
 thread_local! {
@@ -389,6 +467,7 @@ fn code(e: &v::Event) -> String {
 fn run(line: &str) -> String {
     let case = parse_case(line);
     *CTX.write().unwrap_or_else(|e| e.into_inner()) = Some(Arc::new(Ctx { case: case.clone() }));
+    fill_pools(&case);
     v::set_overhead_override(Some([0; 4]));
     v::set_precision_override(Some(1000));
     v::vclock_enable(1_000_000_000, 1);
